@@ -1569,7 +1569,18 @@ impl Writer {
     match self.qos_policies.compliance_failure_wrt(requested_qos) {
       // matched QoS
       None => {
-        let change = self.matched_reader_update(reader_proxy);
+        // Only a reader that asks for at least TransientLocal durability is sent
+        // the samples written before it was matched. Durability::Volatile is the
+        // default and may be left out of the announcement.
+        let reader_wants_history = matches!(
+          requested_qos.durability,
+          Some(
+            policy::Durability::TransientLocal
+              | policy::Durability::Transient
+              | policy::Durability::Persistent
+          )
+        );
+        let change = self.matched_reader_update(reader_proxy, reader_wants_history);
         if change > 0 {
           self.matched_readers_count_total += change;
           self.send_status(DataWriterStatus::PublicationMatched {
@@ -1624,9 +1635,14 @@ impl Writer {
   // Update the given reader proxy. Preserve data we are tracking.
   // return 0 if the reader already existed
   // return 1 if it was new ( = count of added reader proxies)
-  fn matched_reader_update(&mut self, updated_reader_proxy: &RtpsReaderProxy) -> i32 {
+  fn matched_reader_update(
+    &mut self,
+    updated_reader_proxy: &RtpsReaderProxy,
+    reader_wants_history: bool,
+  ) -> i32 {
     let mut new = 0;
-    let is_volatile = self.qos().is_volatile(); // Get this in advance to work with the borrow checker
+    // Get this in advance to work with the borrow checker
+    let is_volatile = self.qos().is_volatile() || !reader_wants_history;
     self
       .readers
       .entry(updated_reader_proxy.remote_reader_guid)
@@ -1635,9 +1651,9 @@ impl Writer {
         new = 1;
         let mut new_proxy = updated_reader_proxy.clone();
         if is_volatile {
-          // With Durabilty::Volatile QoS we won't send the sequence numbers which existed
-          // before matching with this reader. Therefore we set the reader as pending GAP
-          // for all existing sequence numbers
+          // With Durabilty::Volatile QoS on either side we won't send the sequence numbers
+          // which existed before matching with this reader. Therefore we set the reader as
+          // pending GAP for all existing sequence numbers
           new_proxy.set_pending_gap_up_to(self.history_buffer.last_change_sequence_number());
         }
         new_proxy
